@@ -39,7 +39,7 @@ def generate(seed, tier):
     for i in range(3000 if quick else 30000):
         mode = r.random()
         if mode < 0.35:
-            t = G.rand_tree(r, r.randint(1, 4), maxlen=r.choice([8, 40, 600]))
+            t = G.rand_tree(r, r.randint(1, 4), maxlen=r.choice([8, 40, 600]), unstable_keys=True)
         elif mode < 0.5:
             t = G.chain(r, r.randint(1, maxdepth), G.rand_leaf(r, 40))
         elif mode < 0.85:
@@ -51,11 +51,11 @@ def generate(seed, tier):
             t = ("L", [("C", 1, G.rand_units(r, r.choice([373, 374, 390, 400, 600, 1500, 5000]), ascii_only=True))])
         else:
             t = G.rand_leaf(r, 600)
-        yield "ser v " + " ".join(G.tokens_of(t))
+        yield "ser v " + " ".join(G.value_tokens(t))
 
 
 def _tree(req):
-    toks = req.split()[2:]
+    toks = [x for x in req.split()[2:] if not x.startswith("@")]
     t, pos = G.parse_tokens(toks, 0)
     return t
 
@@ -63,7 +63,7 @@ def _tree(req):
 def nontrivial(req, impl):
     t = req.split()
     if t[1] == "v":
-        return t[2] in ("[", "{")
+        return any(x in ("[", "{") for x in t[2:])
     if t[1] == "grow":
         return int(t[3]) + int(t[4]) > int(t[2])
     return True
@@ -127,7 +127,7 @@ def shrink(req):
         elif k == "M":
             yield ("U",)
     for v in variants(tree):
-        yield "ser v " + " ".join(G.tokens_of(v))
+        yield "ser v " + " ".join(G.value_tokens(v))
 
 
 def finding_class(req, impl, model, why):
